@@ -26,6 +26,7 @@ RULE = ("cells = (configuration, null population or null law); every distinct or
         "hash of (configuration, sorted population | law, n)")
 REQUIRED = ["cells:perm", "cells:perm_largeN_few_minority", "cells:iid", "cells:audit", "audit_orderings_run", "orderings_run", "sequences_run", "cells_where_test_can_reject", "cells_with_a_look_after_every_draw_on_one_buffer", "cells_relying_on_the_default_alternative",
             "cells_relying_on_the_default_alternative:null_mean_well_above_one_half",
+            "sprt_cells_with_alternative_not_above_the_null_mean",
             "cells_boundary_mean"] + \
            [f"perm:{nn.label({'test': a, 'estim': b, 'bet': c})}" for a, b, c in nn.COMBOS
             if a not in ("kaplan_markov", "kaplan_wald")] + \
@@ -173,6 +174,9 @@ def run_shard(spec, rec):
             if n_distinct(pop) <= (2600 if spec["tier"] == "quick" else 35000):
                 break
         cfg["N"] = N
+        if combo[0] == "wald_sprt" and "eta" in cfg["kw"] and rng.random() < 0.15:
+            cfg["kw"]["eta"] = t * rng.choice((1.0, 0.75, 0.5, 0.25))
+            cfg["eta_not_above_t"] = True
         run_case({"kind": "perm", "cfg": cfg, "pop": sorted(pop), "stratum": st,
                   "looks": n_distinct(pop) <= 800 and rng.random() < 0.2}, rec)
     # larger N where the orderings are still enumerable: a few minority values among N-k equal ones (N up to 32,
@@ -284,6 +288,16 @@ def run_case(case, rec):
     lab = nn.label(cfg)
     obj = nn.build(cfg)
     u, t = cfg["u"], cfg["t"]
+    if cfg.get("eta_not_above_t"):
+        # an SPRT whose alternative is at or below the null mean is not a test of "mean <= t" (its statistic grows on
+        # small values): the library must either refuse the configuration or still keep the level - the cell decides
+        rec.count("sprt_cells_with_alternative_not_above_the_null_mean")
+        try:
+            obj.test(np.array([float(t)]))
+        except ValueError:
+            rec.count("sprt_alternative_not_above_the_null_mean_refused")
+            rec.case(case, nontrivial=False)
+            return
     if kind == "perm":
         pop = [float(v) for v in case["pop"]]
         N = len(pop)
